@@ -298,8 +298,9 @@ void a_complex_log_(a_complex *ctx)
 #elif defined(A_HAVE_CLOG)
     *ctx = A_REAL_F(clog)(*ctx);
 #else /* !A_HAVE_CLOG */
+    a_real const arg = a_complex_arg(*ctx);
     ctx->real = a_complex_logabs(*ctx);
-    ctx->imag = a_complex_arg(*ctx);
+    ctx->imag = arg;
 #endif /* A_HAVE_CLOG */
 }
 
